@@ -24,8 +24,8 @@ PROPS = ("C03", "C04")
 BASE = dict(ActStrict=True, ShiftByMin=True, LatentCPs=set(), DoEmit=True, PairSameRow=False, ColdWraps=False,
             NoBreak=False, BruteForce=False)
 CFG = {
-    "quick": dict(Temps={0, 100, 200}, CPs={1, 2}, DTCs={0, 50}, MaxStreams=3, HotOpts={0, 1, 2, 4, 5, 6, 7}, ColdOpts={0, 2, 3, 5, 6, 7}),
-    "deepA": dict(Temps={0, 100, 200, 300}, CPs={1, 2}, DTCs={0, 50}, MaxStreams=3, HotOpts={0, 1, 2, 3, 4, 5, 6, 7}, ColdOpts={0, 1, 2, 3, 4, 5, 6, 7}),
+    "quick": dict(Temps={0, 100, 200}, CPs={1, 2}, DTCs={0, 50}, MaxStreams=3, HotOpts={0, 1, 2, 4, 5, 6, 7, 8}, ColdOpts={0, 2, 3, 5, 6, 7, 8}),
+    "deepA": dict(Temps={0, 100, 200, 300}, CPs={1, 2}, DTCs={0, 50}, MaxStreams=3, HotOpts={0, 1, 2, 3, 4, 5, 6, 7, 8}, ColdOpts={0, 1, 2, 3, 4, 5, 6, 7, 8}),
     "deepB": dict(Temps={0, 100, 200}, CPs={1, 2}, DTCs={0, 50}, MaxStreams=4, HotOpts={2, 4}, ColdOpts={2, 4}),
     "tiny": dict(Temps={0, 100, 200}, CPs={1, 2}, DTCs={0, 50}, MaxStreams=2, HotOpts={0, 1, 2, 3, 5}, ColdOpts={0, 1, 2, 3}),
 }
@@ -240,7 +240,7 @@ def check(prop, tier, run: Run, replay_case=None):
     nontriv = set()
     for name in names:
         # ladders 6 (two utilities at one level) and 7 (contribution order) are about C04's optimality clause; C03's quick tier skips them
-        ov = dict(HotOpts=CFG[name]["HotOpts"] - {6, 7}, ColdOpts=CFG[name]["ColdOpts"] - {6, 7}) if (prop == "C03" and tier == "quick") else None
+        ov = dict(HotOpts=CFG[name]["HotOpts"] - {6, 7, 8}, ColdOpts=CFG[name]["ColdOpts"] - {6, 7, 8}) if (prop == "C03" and tier == "quick") else None
         res = tlc_cases(name, overrides=ov)
         run.add_tlc(res, name)
         if res.violated:
@@ -252,7 +252,10 @@ def check(prop, tier, run: Run, replay_case=None):
             cases=len(cases), in_glide_class=sum(1 for c in cases if c["kfGlide"]),
             infeasible_in_spec=sum(1 for c in cases if not c["feasible"]))
         embs = [E1.name, E2.name, E0.name]
-        jobs = [(c, embs[(i + seed()) % 3]) for i, c in enumerate(cases)]
+        # ladder 8 puts a utility's target level exactly on a breakpoint (a possible pinch): the optimum is discontinuous there
+        # (a target an ulp beyond the pinch can carry nothing), so those cases are replayed only under the embeddings that
+        # represent the lattice exactly (E1, E0); under the noisy embedding the tie would be decided by rounding
+        jobs = [(c, (embs[(i + seed()) % 3] if 8 not in (c["ho"], c["co"]) else (E1.name, E0.name)[(i + seed()) % 2])) for i, c in enumerate(cases)]
         with Pool(16, initializer=_init) as pool:
             for (case, ename), (out, flags) in zip(jobs, pool.imap(replay, jobs, chunksize=64)):
                 run.cov["evaluations"] += 1
